@@ -15,7 +15,49 @@ PARTS = {
         "driver": "membercb",
         "scenarios": [("ReplayMemberCB", "wit_membercb.ndjson")],
     },
+    "sd": {
+        "module": "MCMemberSD",
+        "exhaustive": {"quick": [("MCMemberSDQ", "3 instances, 3 starts/deaths at any unit of time, lease acquired by any live instance, election "
+                                                 "callbacks in any order; P = 4 units, rebalanceDelay 2 units, stable after 9 quiet units")],
+                       "thorough": [("MCMemberSD", "3 instances, 4 starts/deaths at any unit of time, lease acquired by any live instance, election "
+                                                   "callbacks in any order; P = 4 units, rebalanceDelay 2 units, stable after 9 quiet units")]},
+        "sims": [("SimMemberSD", "SimMemberSD", 40, 600, 90), ("SimMemberSD", "SimMemberSD8", 10, 150, 160)],
+        "driver": "membersd",
+    },
 }
+
+
+def build_sd(work):
+    """the leader-assigned rig runs under testing/synctest: a test binary built with the newer toolchain (go1.26.8)"""
+    d = os.path.join(work, "harness-sd")
+    shutil.rmtree(d, ignore_errors=True)
+    shutil.copytree(os.path.join(vlib.VERIF, "harness-sd"), d, ignore=shutil.ignore_patterns("go.mod", "go.sum"))
+    open(os.path.join(d, "go.mod"), "w").write(open(os.path.join(d, "go.mod.tmpl")).read().replace("@REPO@", vlib.REPO))
+    shutil.copy(os.path.join(vlib.REPO, "go.sum"), os.path.join(d, "go.sum"))
+    out = os.path.join(work, "vsd.test")
+    p = vlib.sh(["go1.26.8", "test", "-c", "-tags", "verif", "-ldflags=-checklinkname=0", "-o", out, "."], cwd=d, env=vlib.GOENV, timeout=1500)
+    if p.returncode != 0:
+        raise vlib.Machinery("the service-discovery rig does not build against %s:\n%s" % (vlib.REPO, (p.stdout + p.stderr)[-3000:]))
+    return out
+
+
+def drive_sd(vsd, scheds, work):
+    fin, fout = os.path.join(work, "sd-in.ndjson"), os.path.join(work, "sd-out.ndjson")
+    with open(fin, "w") as f:
+        for s in scheds:
+            f.write(json.dumps(s, separators=(",", ":")) + "\n")
+    p = vlib.sh([vsd, "-test.run", "TestDrive", "-test.timeout", "1500s"], cwd=work, env=dict(os.environ, VERIF_SD_IN=fin, VERIF_SD_OUT=fout), timeout=1600)
+    if p.returncode != 0 or not os.path.exists(fout):
+        raise vlib.Machinery("the service-discovery rig failed (exit %s): %s" % (p.returncode, (p.stdout + p.stderr)[-3000:]))
+    lines, summ = [], {"runs": 0, "steps": 0, "diverged_runs": 0, "skipped_steps": 0}
+    for line in open(fout):
+        t = json.loads(line)
+        if t.get("summary"):
+            for k in summ:
+                summ[k] += t.get(k, 0)
+        else:
+            lines.append(t)
+    return lines, summ
 
 
 def run(prop, tier, seed):
@@ -25,6 +67,7 @@ def run(prop, tier, seed):
     shutil.rmtree(work, ignore_errors=True); os.makedirs(work)
     try:
         vdrive, _ = vlib.build_harness(work)
+        vsd = build_sd(work)
         vlib.spec_copy(work)
         mc_runs, allsch = [], []
         for pname, part in PARTS.items():
@@ -72,7 +115,13 @@ def run(prop, tier, seed):
                     allsch.append(s)
         for i, s in enumerate(allsch):
             s["id"] = i + 1; s["isolate"] = True; s["nvb"] = 8
-        lines, summ = vlib.drive(vdrive, allsch, work, shards=int(os.environ.get("VERIF_SHARDS", "8")))
+        lines, summ = vlib.drive(vdrive, [s for s in allsch if s["driver"] == "membercb"], work, shards=int(os.environ.get("VERIF_SHARDS", "8")))
+        l2, s2 = drive_sd(vsd, [s for s in allsch if s["driver"] == "membersd"], work)
+        lines += l2
+        for k in summ:
+            summ[k] += s2[k]
+        if summ["runs"] != len(allsch):
+            raise vlib.Machinery("%d of %d schedules were executed" % (summ["runs"], len(allsch)))
         bad, nev = vlib.monitor(lines, allsch, {"monitor": "MonMember"}, work)
         skipped = [t for t in lines if t.get("skipped")]
         diverged = {}
@@ -103,7 +152,12 @@ def run(prop, tier, seed):
                "conformance_diverged_runs": len(diverged), "first_divergences": list(diverged.values())[:5],
                "observable_events_monitored_by_tlc": nev, "label_counts": labels, "event_counts": nev_kind}
         funcheck.evidence(prop, tier, seed, "model_checking", cov,
-                          ["Couchbase membership: real couchbase.NewCBMembership instances over real couchbase.NewClient connections to a "
+                          ["leader-assigned numbering: real servicediscovery.ServiceDiscovery objects with their real heart-beat and monitor loops under "
+                           "testing/synctest (virtual time, go1.26.8); the pod-to-pod rpc client is replaced by direct calls into the peer's real rpc "
+                           "Handler (fails exactly when one end is dead); the election callbacks of stream/leader_election.go are reproduced call by "
+                           "call without dialling; the Kubernetes lease itself is the environment's choice",
+                           "static and dynamic membership hold the configured / last requested numbering by construction and are not modelled",
+                           "Couchbase membership: real couchbase.NewCBMembership instances over real couchbase.NewClient connections to a "
                            "simulated node (harness/simnode: memcached binary protocol, one front-end per instance on a shared document store); "
                            "monitor()/heartbeat() rounds are run through verif exports, the background loops sleep (1 h intervals)",
                            "time is modelled by ageing documents: a stopped instance's heart-beat document is rewritten on the server as three hours "
